@@ -22,6 +22,7 @@ DECIDES = (
     "abstractly evaluated) and SmootherBase.smooth, and GridBase.update is only called with the clamped junction's index "
     "(C13.WHO-WRITES-POINTS); every normal exit of optimize passes backport() (C13.BACKPORT); the warnings filter installed by "
     "CellBase.quality is released on every exit (C13.WARNING-FILTER)."
+    ' lengths in the optimisation package are taken of vectors, not positions (C13.AFFINE-KINDS); link transforms as linear forms (C13.LINK-RELATION = C17.LINK-ALGEBRA).'
 )
 NOT_DECIDED = "'never worsens', constraint satisfaction and bounds: numerical minimisation."
 ASSUMPTIONS = ["copy.copy / np.copy / np.array / list() of clamp.params is a snapshot independent of later update_params calls"]
